@@ -44,6 +44,10 @@ def stratified_keep(ctx, part, h, n, per_shape=1):
     the problem and which handle became the objective), so that rare spellings are never sampled away."""
     key = ' ; '.join(progjudge.site(c, ctx.cur_heap) for c in ctx.cur_calls[:-1]) + ' | obj=h%s' % (
         'base' if ctx.cur_calls[-1]['a'] <= ctx.nb else 'new')
+    lp = (ctx.cur_preds[-1] or {}).get('lp') if isinstance(ctx.cur_preds[-1], dict) else None
+    if lp:
+        zero = lambda r: all(x[0] == 0 for x in r)
+        key += ' | %s%s' % ('zero-row ' if any(zero(r['a']) for r in lp['ub'] + lp['eq']) else '', 'zero-cost' if zero(lp['c']) else '')
     seen = _SEEN      # per worker process
     k = seen.get(key, 0)
     seen[key] = k + 1
@@ -114,7 +118,8 @@ def observer(got, pred, sp, call, sg, prog, ctx, part):
 
 def run(report, tier):
     KEEP[0] = 40 if tier == 'quick' else 3
-    r = apirun.run_config(report, 'MC_C05', observer=observer, report_kinds=())
+    r = apirun.run_config(report, 'MC_C05', observer=observer, report_kinds=(),
+                          overrides=None if tier == 'thorough' else {'ObjCands': '<- MC_ObjCandsQ'})
     check_code_table(r.log)
     return report.finish(
         rule='the linear problems enumerated by TLC for C05 (expression -> comparison -> Problem; scalar sums, vector reductions, c @ x, slices, '
